@@ -253,7 +253,7 @@ class LinModel:
         self.tA, self.tB = g(self.sh["A"], n, n), g(self.sh["B"], n, m)
         self.tC, self.tD = g(self.sh["C"], q, n), g(self.sh["D"], q, m)
         self.tc1 = g(self.sh["c"], n) if consts in ("both", "c1") else None
-        self.tc2 = g(self.sh["c"], q) if consts == "both" else None
+        self.tc2 = g(self.sh["c"], q) if consts in ("both", "c2") else None
         self.gen_consts = False
         if family == "func":
             self.tA1, self.tC1 = tt(rng.standard_normal(self.sh["A"] + (n, n)), self.dtype), \
@@ -798,7 +798,7 @@ def run(ck):
     try:
         # ---- LTI / LTV: every (family, layout, dtype, consts) cell, split over the shards
         cells = [(fam, lay, dn, cs) for fam in ("LTI", "stack", "func") for lay in LAYOUTS for dn in ("f64", "f32")
-                 for cs in ("both", "none", "c1")]
+                 for cs in ("both", "none", "c1", "c2")]
         reps = 6 if thorough else 1
         i = 0
         for rep in range(reps):
@@ -832,7 +832,7 @@ def run(ck):
 
     for fam in ("LTI", "stack", "func"):
         ck.require(*[f"{fam}/{lay}" for lay in LAYOUTS], f"{fam}/f64", f"{fam}/f32",
-                   f"{fam}/consts=both", f"{fam}/consts=none", f"{fam}/consts=c1")
+                   f"{fam}/consts=both", f"{fam}/consts=none", f"{fam}/consts=c1", f"{fam}/consts=c2")
     evs = ["call", "reset()", "reset(int)", "reset(tensor)", "systime=int", "systime=tensor", "set_refpoint()",
            "eval()/train()"]
     for kind in ("LTI", "LTV", "NLS"):
